@@ -107,3 +107,100 @@ act!(c16_activation_names5, Some(5), 2); // "a:b:varlink"
 act!(c16_activation_fds1_nonames, None, 1);
 act!(c16_activation_fds1_names1, Some(1), 1);
 act!(c16_activation_fds0, None, 0);
+
+// ---- address schemes: client and server alike ---------------------------------------------
+
+static mut CALLED: [u8; 2] = [0; 2]; // scheme class of the constructor reached by [server, client]
+static mut ARG_PTR: [usize; 2] = [0; 2];
+static mut ARG_LEN: [usize; 2] = [0; 2];
+static mut SIDE: usize = 0;
+
+fn note(scheme: u8, s: &str) {
+    unsafe {
+        CALLED[SIDE] = scheme;
+        ARG_PTR[SIDE] = s.as_ptr() as usize;
+        ARG_LEN[SIDE] = s.len();
+    }
+}
+
+fn io_err<T>() -> std::io::Result<T> {
+    Err(std::io::Error::from(std::io::ErrorKind::Other))
+}
+
+fn tcp_bind_stub<A: std::net::ToSocketAddrs>(addr: A) -> std::io::Result<TcpListener> {
+    // only instantiated with A = &str
+    note(SCHEME_TCP, unsafe { *(&addr as *const A as *const &str) });
+    io_err()
+}
+fn tcp_connect_stub<A: std::net::ToSocketAddrs>(addr: A) -> std::io::Result<TcpStream> {
+    note(SCHEME_TCP, unsafe { *(&addr as *const A as *const &str) });
+    io_err()
+}
+fn unix_bind_stub<P: AsRef<std::path::Path>>(path: P) -> std::io::Result<UnixListener> {
+    note(SCHEME_UNIX, unsafe { *(&path as *const P as *const &str) });
+    io_err()
+}
+fn unix_connect_stub<P: AsRef<std::path::Path>>(path: P) -> std::io::Result<UnixStream> {
+    note(SCHEME_UNIX, unsafe { *(&path as *const P as *const &str) });
+    io_err()
+}
+fn remove_file_stub<P: AsRef<std::path::Path>>(_path: P) -> std::io::Result<()> {
+    Ok(())
+}
+fn abstract_listener_stub(addr: &str) -> Result<UnixListener> {
+    note(SCHEME_ABSTRACT, addr);
+    Err(context!(ErrorKind::Io(std::io::ErrorKind::Other)))
+}
+fn abstract_stream_stub(addr: &str) -> Result<UnixStream> {
+    note(SCHEME_ABSTRACT, addr);
+    Err(context!(ErrorKind::Io(std::io::ErrorKind::Other)))
+}
+fn no_activation() -> Option<usize> {
+    None
+}
+
+#[kani::proof]
+#[kani::unwind(12)]
+#[kani::stub(std::net::TcpListener::bind, tcp_bind_stub)]
+#[kani::stub(std::net::TcpStream::connect, tcp_connect_stub)]
+#[kani::stub(std::os::unix::net::UnixListener::bind, unix_bind_stub)]
+#[kani::stub(std::os::unix::net::UnixStream::connect, unix_connect_stub)]
+#[kani::stub(std::fs::remove_file, remove_file_stub)]
+#[kani::stub(get_abstract_unixlistener, abstract_listener_stub)]
+#[kani::stub(crate::client::get_abstract_unixstream, abstract_stream_stub)]
+#[kani::stub(activation_listener, no_activation)]
+#[kani::stub(core::slice::memchr::memchr, crate::verif_lib::stubs::naive_memchr)]
+#[kani::stub(alloc::fmt::format, crate::verif_lib::stubs::format)]
+fn c16_scheme() {
+    let a = draw_addr(&mut KSrc);
+    let text = unsafe { std::str::from_utf8_unchecked(&a.b) };
+    let (scheme, from, to) = classify(&a);
+
+    unsafe { SIDE = 0 };
+    let rs = Listener::new(text);
+    let server_invalid = match &rs {
+        Err(e) => matches!(e.kind(), ErrorKind::InvalidAddress),
+        Ok(_) => false,
+    };
+    std::mem::forget(rs);
+    unsafe { SIDE = 1 };
+    let rc = crate::client::varlink_connect(text);
+    let client_invalid = match &rc {
+        Err(e) => matches!(e.kind(), ErrorKind::InvalidAddress),
+        Ok(_) => false,
+    };
+    std::mem::forget(rc);
+
+    kani::cover!(scheme == SCHEME_ABSTRACT, "abstract unix address");
+    kani::cover!(scheme == SCHEME_TCP, "tcp address");
+    assert!(server_invalid == (scheme == SCHEME_NONE), "P:c16.server_rejects_exactly_the_other_schemes");
+    assert!(client_invalid == (scheme == SCHEME_NONE), "P:c16.client_rejects_exactly_the_other_schemes");
+    let (called, ptr, len) = unsafe { (CALLED, ARG_PTR, ARG_LEN) };
+    assert!(called[0] == scheme && called[1] == scheme, "P:c16.client_and_server_pick_the_same_transport");
+    if scheme != SCHEME_NONE {
+        let base = a.b.as_ptr() as usize;
+        assert!(ptr[0] == base + from && len[0] == to - from, "P:c16.server_socket_name_is_the_address_part");
+        // the client works on its own copy of the address: compare position and length
+        assert!(len[1] == to - from, "P:c16.client_socket_name_is_the_address_part");
+    }
+}
